@@ -9,6 +9,7 @@ checks (props/*.py) select from it.
 from __future__ import annotations
 
 import ast
+import itertools
 from dataclasses import dataclass, field
 
 from . import gensem, ops, opsem, opspec, tmpl
@@ -111,8 +112,10 @@ def props_for(side: str, cls: str, rule: str) -> set:
             p.add("C05")
         elif not gen:
             p.add("C03")
-    if rule in ("ATOM",):
+    if rule in ("ATOM", "HIDE"):
         p |= {"C04"}
+    if rule == "HIDE":
+        p |= {"C06"}
     if rule in ("TAGS",):
         p |= {"C06", "C08"}
     if rule in ("FRAMES", "NEG", "SUPPRESS", "FAILLABEL", "FAILPOS"):
@@ -166,6 +169,7 @@ def generic_checks(rep: OpReport, rec: PathRec, cls: str) -> None:  # noqa: PLR0
             extra = {"C04"} if "trivia" in what else set()
             ob("K2", what, ok, extra)
     ob("ATOM", f"atomic depth not restored at a {where} exit" if (rec.atomic_out != ("E", 0) or rec.atomic_saves) else "atomic depth restored", rec.atomic_out == ("E", 0) and not rec.atomic_saves)
+    ob("HIDE", f"pair visibility (hide_pairs) not restored at a {where} exit" if (rec.hide_out != rec.hide_in or rec.hide_saves) else "pair visibility restored", rec.hide_out == rec.hide_in and not rec.hide_saves)
     ob("FRAMES", f"rule stack not restored at a {where} exit" if rec.frames_out else "rule stack restored", not rec.frames_out)
     ob("NEG", f"neg_pred_depth not restored at a {where} exit" if rec.neg_out else "neg_pred_depth restored", rec.neg_out == 0)
     ob("SUPPRESS", "failure suppression left on at exit" if rec.suppress_out else "failure suppression off at exit", rec.suppress_out == 0)
@@ -453,6 +457,19 @@ def rule_checks(rep: OpReport, rec: PathRec, params: dict, masks: dict) -> None:
         want = ("E", 0)
         desc = "atomic depth untouched"
     ob({"C04"}, "RULE-ATOM", f"body runs with atomic state {atomic_at_child} where '{desc}' is specified for this modifier", f"body runs with {desc}", atomic_at_child == want)
+    # pair visibility (pest: a rule entered while the atomicity is Atomic produces no token; @ sets Atomic for its
+    # body, $ and ! make pairs visible again - for themselves and their body)
+    hide_at_child = ce[10] if len(ce) > 10 else False
+    if mod & masks["COMPOUND"]:
+        want_hide, hdesc = False, "pairs visible ($)"
+    elif mod & masks["ATOMIC"] or name in ("WHITESPACE", "COMMENT"):
+        want_hide, hdesc = True, "pairs hidden (@, and the body of a trivia rule)"
+    elif mod & masks["NONATOMIC"]:
+        want_hide, hdesc = False, "pairs visible (!)"
+    else:
+        want_hide, hdesc = rec.hide_in, "pair visibility inherited"
+    ob({"C04", "C06"}, "RULE-HIDE", f"body runs with hide_pairs={hide_at_child} where '{hdesc}' is specified for this modifier", f"body runs with {hdesc}", hide_at_child == want_hide)
+    visible = (not rec.hide_in) or bool(mod & (masks["COMPOUND"] | masks["NONATOMIC"]))
     ob({"C13", "C06"}, "RULE-FRAME", "rule frame is not on the rule stack while the body runs", "rule frame pushed around the body", frames_at_child == 1)
     idx = rec.events.index(ce)
     fpush = [i for i, e in enumerate(rec.events) if e[0] == "FPUSH"]
@@ -467,11 +484,12 @@ def rule_checks(rep: OpReport, rec: PathRec, params: dict, masks: dict) -> None:
         return
     ob({"C03"}, "RULE", "rule succeeds although its body failed", "succeeds only when the body matched", bool(ce[3]))
     body_items = [it for it in rec.out if it[0] in ("C", "T")]
-    if silent:
-        ob({"C06", "C03"}, "RULE-PAIR", "a silent rule produces a Pair", "silent rule produces no Pair", not pairs)
+    if silent or not visible:
+        kind = "silent" if silent else "hidden (entered inside an atomic rule)"
+        ob({"C06", "C03"} | ({"C04"} if not silent else set()), "RULE-PAIR", f"a {kind} rule produces a Pair", f"{kind} rule produces no Pair", not pairs)
         ok = [it[1] for it in body_items] == [ce[5]] and len(rec.out) == 1
-        ob({"C06", "C08"}, "RULE-PAIR", "a silent rule does not splice exactly its body's pairs into the caller's list", "body pairs spliced into the caller's list", ok)
-        ob({"C06", "C08"}, "R7", "a silent rule consumes the pending tag", "silent rule leaves the tag stack alone", not tagpops)
+        ob({"C06", "C08"}, "RULE-PAIR", f"a {kind} rule does not splice exactly its body's pairs into the caller's list", "body pairs spliced into the caller's list", ok)
+        ob({"C06", "C08"}, "R7", f"a {kind} rule consumes the pending tag", f"{kind} rule leaves the tag stack alone", not tagpops)
         return
     ob({"C06", "C03"}, "RULE-PAIR", f"{len(pairs)} Pairs appended on success where exactly one is specified", "exactly one Pair on success", len(pairs) == 1 and len(rec.out) == 1)
     if len(pairs) != 1:
@@ -486,10 +504,8 @@ def rule_checks(rep: OpReport, rec: PathRec, params: dict, masks: dict) -> None:
     ch = pv.children
     kept = ch[0] == "list" and [it[1] for it in ch[1]] == [ce[5]] and all(it[0] == "C" for it in ch[1])
     dropped = ch[0] == "empty" or (ch[0] == "list" and not ch[1])
-    if mod & masks["ATOMIC"]:
-        ob({"C04", "C06"}, "RULE-PAIR", "children of an atomic rule are neither kept nor hidden as a whole", "atomic rule keeps or hides its children", kept or dropped)
-    else:
-        ob({"C04", "C06"}, "RULE-PAIR", "Pair children are not exactly the body's pairs", "Pair children are the body's pairs", kept)
+    # which pairs an atomic rule shows is decided where they are produced (RULE-HIDE): the rule keeps what its body yields
+    ob({"C04", "C06"}, "RULE-PAIR", "Pair children are not exactly the body's pairs" if not dropped else "the rule throws its body's pairs away", "Pair children are the body's pairs", kept)
     if rec.tags_in:
         tag_ok = isinstance(pv.tag, tuple) and pv.tag[0] == "tag" and pv.tag[1] == rec.tags_in[-1] and len(tagpops) == 1
         ob({"C06"}, "RULE-PAIR", "pending tag is not moved onto the Pair", "pending tag moved onto the Pair", tag_ok)
@@ -768,6 +784,16 @@ def analyse(repo: Repo, tier: str = "quick", diff: bool = True) -> OpReport:  # 
 
     if diff:
         diff_checks(repo, rep, masks, tier)
+    # ---- E2 models ParserState's context managers by name: their source is checked against that model (E8)
+    n_c, bad_c = opsem.check_ctx_managers(repo, "CTX-MODEL")
+    rep.count("ctx_model_points", n_c)
+    ccon = f"{STATE_REL}::ParserState"
+    for label, props_c in (("atomic_checkpoint", {"C04", "C06"}), ("suppress_failures", {"C13"}), ("tag", {"C06", "C08"})):
+        rep.oblige(props_c, "CTX-MODEL", f"{ccon}.{label}", f"{label}() does what the operator analysis assumes of it", True)
+    for cat, detail in bad_c:
+        label = cat.split("(")[0].split(" ")[0]
+        props_c = {"atomic_checkpoint": {"C04", "C06"}, "suppress_failures": {"C13"}, "tag": {"C06", "C08"}}.get(label, {"C04"})
+        rep.oblige(props_c, "CTX-MODEL", f"{ccon}.{label}", cat, False, Finding("CTX-MODEL", f"{ccon}.{label}", cat, f"{cat}: {detail}", {"witness": detail}))
     # ---- Rule
     analyse_rules(repo, rep, masks, tier)
     # ---- parse_trivia siblings
@@ -861,6 +887,7 @@ def analyse_rules(repo: Repo, rep: OpReport, masks: dict, tier: str) -> None:
     mask_list = [0, S, A, C, N, S | A, S | C, S | N]
     names = ["rname", "WHITESPACE", "COMMENT"]
     tag_entries = [(), (("entry", "t0"),)]
+    hide_entries = [False, True]
     for mod in mask_list:
         for name in names:
             params = {"expression": 0, "modifier": mod, "name": name}
@@ -870,8 +897,8 @@ def analyse_rules(repo: Repo, rep: OpReport, masks: dict, tier: str) -> None:
             for sk in sks:
                 rep.skeleton_sources.append((sk.label(), sk))
                 rep.hygiene.extend(sk.holes)
-            for tags in tag_entries:
-                entry = {"stack": (), "tags": tags}
+            for tags, hide in itertools.product(tag_entries, hide_entries):
+                entry = {"stack": (), "tags": tags, "hide": hide}
                 recs, _ = ops.run_parse(repo, RULE_REL, "Rule", params, entry, 3)
                 all_recs = list(recs)
                 for sk in sks:
